@@ -100,6 +100,56 @@ theorem clash_changes_nothing (s : S) (n : Nat) (sup : Option Nat) (b : Nat)
   intro c y hy
   rw [List.getElem?_append_left (List.getElem?_eq_some_iff.mp hy).1]; exact hy
 
+/-! ### the thread-local flavour: the link exists before `pre_start` runs -/
+
+/-- (refused link) A thread-local spawn under a supervisor that is shutting down fails at
+once: the new actor is a failed start, already Stopped, `pre_start` never gets to run (it is
+not starting, so no `pre_start` side effect applies to it), the name table and the delivered
+events are unchanged. -/
+theorem tl_refused_link_fails_at_once (s : S) (name : Option Nat) (p : Nat)
+    (hc : clashes s name = false) (hr : supAccepts s p = false) :
+    ((step s (.beginTL name (some p))).actors[s.actors.length]?).map (fun x => (x.failedStart, x.phase)) =
+        some (true, .stopped) ∧
+      (step s (.beginTL name (some p))).names = s.names ∧
+      (step s (.beginTL name (some p))).events = s.events ∧
+      isStarting (step s (.beginTL name (some p))) s.actors.length = false := by
+  simp [step, hc, refusedBy, hr, isStarting]
+
+/-- (early link) An accepted thread-local spawn is in its supervisor's child set while it is
+still starting. -/
+theorem tl_starting_child_is_linked (s : S) (name : Option Nat) (p : Nat)
+    (hc : clashes s name = false) (ha : supAccepts s p = true) :
+    isStarting (step s (.beginTL name (some p))) s.actors.length = true ∧
+      s.actors.length ∈ childrenOf (step s (.beginTL name (some p))) p := by
+  constructor
+  · simp [step, hc, refusedBy, ha, isStarting]
+  · simp [step, hc, refusedBy, ha, childrenOf]
+
+/-- … and a supervisor that exits takes it along: a starting child that is killed is a failed
+start (to which `failed_start_leaves_nothing` then applies: no lifecycle event, no name, no
+membership, nothing queued). -/
+theorem killed_starting_child_is_failed_start (s : S) (c : Nat) (hst : isStarting s c = true) :
+    ((killChild s c).actors[c]?).map (·.failedStart) = some true := by
+  obtain ⟨x, hx, _⟩ := isStarting_iff.mp hst
+  unfold killChild
+  simp only [hst, if_true]
+  rw [getElem?_setActor]
+  have hlen : c < (release s c).actors.length := by
+    rw [(frame_release s c).len]; exact (List.getElem?_eq_some_iff.mp hx).1
+  rw [List.getElem?_eq_getElem hlen]
+  simp
+
+/-- (the early link is undone) After a failed start — thread-local or not — the actor is in
+nobody's child set. -/
+theorem failed_start_in_no_child_set (ops : List Op) (a : Nat) (x : Actor)
+    (hx : (run ops).actors[a]? = some x) (hf : x.failedStart = true) (p : Nat) :
+    a ∉ childrenOf (run ops) p := by
+  have hl := (failed_start_leaves_nothing ops a x hx hf).2.2.2.1
+  intro hm
+  simp only [childrenOf, List.mem_filter, hx, Bool.and_eq_true] at hm
+  rw [hl] at hm
+  exact absurd hm.2.1 (by simp)
+
 /-! ### Source guards (E-SRC): what the model assumes about the text of `actor.rs`,
 re-extracted from the repository on every run -/
 
@@ -109,6 +159,8 @@ theorem src_guard_silent_before_running : Extracted.guardInitialNotifyOnCancel =
 theorem src_start_order : Extracted.sendStartOrder = true := by decide
 /-- … and pre_start (under `run_with_signal`) is its only await point before the loop task exists -/
 theorem src_start_single_await : Extracted.sendStartAwaitPoints = 1 := by decide
+/-- the thread-local `start` links BEFORE pre_start and marks running after it -/
+theorem src_local_start_order : Extracted.localStartOrder = true := by decide
 /-- the guard's cleanup: Stopping, terminate children, notify, unlink, Stopped — in this order -/
 theorem src_cleanup_order : Extracted.cleanupOrder =
     ["set_status:Stopping", "terminate", "notify_supervisor", "unlink", "set_status:Stopped"] := by decide
@@ -127,6 +179,19 @@ example : (run exampleOps).ports = [.senderError] ∧ (run exampleOps).events = 
   decide
 example : ok (run exampleOps) = true := by decide
 
+/-- thread-local: 1 starts under the running supervisor 0 and is its child at once; 0 is
+stopped and takes the starting 1 along; a spawn under the stopped 0 fails before pre_start;
+3 is queued, sent a call, and cut. -/
+def exampleTL : List Op :=
+  [.begin none none, .finish 0 .ok, .beginTL (some 7) (some 0), .join 1 2, .stop 0,
+   .beginTL (some 7) (some 0), .beginTL none none, .call 3, .cut 3]
+
+example : ((run exampleTL).actors.map (fun x => (x.phase, x.failedStart))) =
+    [(.stopped, false), (.stopped, true), (.stopped, true), (.stopped, true)] := by decide
+example : childrenOf (run (exampleTL.take 4)) 0 = [1] := by decide
+example : (run exampleTL).ports = [.senderError] ∧ (run exampleTL).events = [] ∧ (run exampleTL).names = [] := by
+  decide
+
 end C08
 
 #print axioms C08.ok_reachable
@@ -135,7 +200,13 @@ end C08
 #print axioms C08.failure_causes_fail
 #print axioms C08.refused_link_fails
 #print axioms C08.clash_changes_nothing
+#print axioms C08.tl_refused_link_fails_at_once
+#print axioms C08.tl_starting_child_is_linked
+#print axioms C08.killed_starting_child_is_failed_start
+#print axioms C08.failed_start_in_no_child_set
+
 #print axioms C08.src_guard_silent_before_running
 #print axioms C08.src_start_order
 #print axioms C08.src_start_single_await
+#print axioms C08.src_local_start_order
 #print axioms C08.src_cleanup_order
